@@ -455,6 +455,93 @@ type ReplayFile struct {
 		Evals int `json:"evaluations"`
 	} `json:"after_minimisation"`
 	Note string `json:"note,omitempty"`
+	// set when the violation only shows after the worker's earlier runs (state
+	// that survives between runs in one process): replay = re-execute this range
+	// of the worker's run sequence in one fresh process
+	WorkerRange *WorkerRange `json:"worker_range,omitempty"`
+}
+
+type WorkerRange struct {
+	Wid  int    `json:"wid"`
+	From int    `json:"from"`
+	To   int    `json:"to"`
+	Tier string `json:"tier"`
+}
+
+// runWorkerRange executes runs [from,to) of worker wid in one fresh process and
+// returns the candidates it emitted.
+func (c *coord) runWorkerRange(race bool, wid, from, to int) []*Candidate {
+	ph := phase{race: race}
+	cmd := c.workerCmd(ph, wid, from, to, time.Now().Add(10*time.Minute))
+	var stdout bytes.Buffer
+	cmd.Stdout = &stdout
+	_ = cmd.Run()
+	var out []*Candidate
+	for _, line := range strings.Split(stdout.String(), "\n") {
+		if strings.HasPrefix(line, "CAND ") {
+			var cd Candidate
+			if json.Unmarshal([]byte(line[5:]), &cd) == nil {
+				out = append(out, &cd)
+			}
+		}
+	}
+	return out
+}
+
+func findRun(cands []*Candidate, idx int, v *Violation) *Candidate {
+	for _, cd := range cands {
+		if cd.RunIdx == idx && cd.Violation.Class == v.Class && cd.Violation.Kind == v.Kind {
+			return cd
+		}
+	}
+	return nil
+}
+
+// prefixReproduce looks for the shortest suffix [j, i] of the worker's run
+// sequence that still makes run i fail the same way.
+func (c *coord) prefixReproduce(cd *Candidate) *ReplayFile {
+	if c.prop == "C19" || cd.World == nil {
+		return nil
+	}
+	i := cd.RunIdx
+	hit := -1
+	for back := 1; ; back *= 2 {
+		j := i - back
+		if j < 0 {
+			j = 0
+		}
+		if findRun(c.runWorkerRange(cd.Race, cd.Wid, j, i+1), i, &cd.Violation) != nil {
+			hit = j
+			break
+		}
+		if j == 0 {
+			return nil
+		}
+	}
+	// tighten: largest j in [hit, i-1] that still reproduces
+	lo, hi := hit, i-1
+	for lo < hi {
+		mid := (lo + hi + 1) / 2
+		if findRun(c.runWorkerRange(cd.Race, cd.Wid, mid, i+1), i, &cd.Violation) != nil {
+			lo = mid
+		} else {
+			hi = mid - 1
+		}
+	}
+	// must reproduce twice
+	r1 := findRun(c.runWorkerRange(cd.Race, cd.Wid, lo, i+1), i, &cd.Violation)
+	r2 := findRun(c.runWorkerRange(cd.Race, cd.Wid, lo, i+1), i, &cd.Violation)
+	if r1 == nil || r2 == nil {
+		return nil
+	}
+	rf := &ReplayFile{Property: c.prop, Seed: c.seed, RunIdx: i, Race: cd.Race, World: r1.World, Tape: r1.Tape}
+	rf.TapeKinds = simrt.KindNames
+	rf.Class, rf.Kind, rf.Want, rf.Got = r1.Violation.Class, r1.Violation.Kind, r1.Violation.Want, r1.Violation.Got
+	rf.Detail = r1.Violation.Detail + fmt.Sprintf(" — only after runs %d..%d of the same worker process: the result depends on what the process handled before (state surviving between independent histories)", lo, i-1)
+	rf.WorkerRange = &WorkerRange{Wid: cd.Wid, From: lo, To: i + 1, Tier: c.tier}
+	rf.Original.Ops, rf.Original.Tasks = numOps(cd.World), len(cd.World.Tasks)
+	rf.Note = "the world and tape shown are those of the failing (last) run; replay re-executes the whole range"
+	return rf
 }
 
 func tapeLen(t [simrt.NKinds][]uint32) int {
@@ -517,7 +604,22 @@ func (c *coord) conclude() int {
 			}
 		}
 		if confirmed == nil {
-			c.addInfra("NOT-REPRODUCED: a candidate violation (" + sig + ") did not recur when replayed in a fresh process")
+			// Perhaps the run only fails after the runs the same worker process
+			// executed before it (process-wide state surviving between runs).
+			if rf := c.prefixReproduce(g[0]); rf != nil {
+				path := filepath.Join(c.verif, "replays", fmt.Sprintf("%s-%d-%s.json", c.prop, c.seed, shortHash(rf)))
+				_ = os.MkdirAll(filepath.Dir(path), 0o755)
+				b, _ := json.MarshalIndent(rf, "", " ")
+				_ = os.WriteFile(path, b, 0o644)
+				reported++
+				fmt.Printf("jsim: %s on %s: %s\n", rf.Class, rf.Kind, rf.Detail)
+				fmt.Printf("jsim:   want %s\njsim:   got  %s\n", clip(rf.Want, 300), clip(rf.Got, 300))
+				fmt.Printf("VIOLATION property=%s replay=%s\n", c.prop, path)
+				replayPaths = append(replayPaths, path)
+				exit = 1
+				continue
+			}
+			c.addInfra("NOT-REPRODUCED: a candidate violation (" + sig + ") did not recur when replayed in a fresh process, alone or after the worker's earlier runs")
 			continue
 		}
 		rf := c.minimise(confirmed, budgetEnd)
@@ -988,7 +1090,12 @@ func (c *coord) minimise(cd *Candidate, budgetEnd time.Time) *ReplayFile {
 		rf.Events = r1.out.Events
 		rf.RaceReport = normalizeRace(r1.out.RaceText)
 		if want.Class != "race" && (r2.out == nil || r2.out.EventHash != r1.out.EventHash || r2.out.ObsHash != r1.out.ObsHash) {
-			return nil // not the same execution twice: the simulator lost determinism
+			// Both replays violate the same oracle on the same call kind, but they are
+			// not the same execution: something the simulator does not own (time, an
+			// unseeded random source, …) decides part of the run. The violation
+			// stands (it was shown twice); the replay is confirmed by class, not by hash.
+			rf.Note = strings.TrimSpace(rf.Note + " replays of this tape violate the same oracle but are not identical executions: the run depends on nondeterminism no seam owns (clock, unseeded randomness, …)")
+			rf.Expect.EventHash, rf.Expect.ObsHash = 0, 0
 		}
 	} else {
 		rf.Kind, rf.Detail = want.Kind, "the process dies: "+r1.crashed
@@ -1171,8 +1278,10 @@ func replayMain(args []string) {
 	fs.StringVar(&c.scratch, "scratch", "", "")
 	fs.StringVar(&c.plainBin, "plain", "", "")
 	fs.StringVar(&c.raceBin, "race", "", "")
+	corpusPath := fs.String("corpus", "", "")
 	_ = fs.Parse(args)
 	c.goldDir = filepath.Join(c.scratch, "golden")
+	_ = os.MkdirAll(filepath.Join(c.scratch, "race"), 0o755)
 	b, err := os.ReadFile(*file)
 	var rf ReplayFile
 	if err != nil || json.Unmarshal(b, &rf) != nil || rf.World == nil {
@@ -1195,6 +1304,18 @@ func replayMain(args []string) {
 		}
 		fmt.Println("jsim: NOT-REPRODUCED (64 fresh process pairs agreed)")
 		os.Exit(0)
+	}
+	if rf.WorkerRange != nil {
+		c.prop, c.seed, c.tier = rf.Property, rf.Seed, rf.WorkerRange.Tier
+		c.corpus = *corpusPath
+		hit := findRun(c.runWorkerRange(rf.Race, rf.WorkerRange.Wid, rf.WorkerRange.From, rf.WorkerRange.To), rf.WorkerRange.To-1, &want)
+		if hit == nil {
+			fmt.Printf("jsim: NOT-REPRODUCED: runs %d..%d of worker %d no longer end in %s/%s\n", rf.WorkerRange.From, rf.WorkerRange.To-1, rf.WorkerRange.Wid, rf.Class, rf.Kind)
+			os.Exit(0)
+		}
+		fmt.Printf("jsim: REPRODUCED %s/%s in run %d after runs %d.. of the same process\njsim:   want %s\njsim:   got  %s\n", rf.Class, rf.Kind, rf.WorkerRange.To-1, rf.WorkerRange.From, clip(hit.Violation.Want, 400), clip(hit.Violation.Got, 400))
+		fmt.Printf("VIOLATION property=%s replay=%s\n", rf.Property, *file)
+		os.Exit(1)
 	}
 	cd := &Candidate{Prop: rf.Property, Race: rf.Race, World: rf.World, Tape: rf.Tape}
 	r := c.eval(cd)
